@@ -132,7 +132,22 @@ def table_stability(ctx):
                            how='construct the listed players in this order in one process; then player._deserialize_packet(NetPacket of that type, 1-byte payload): '
                                'the table names a class for this type, so the class must be constructed (and refuse the payload), not skipped as unknown')
     ctx.obligation('the packet tables survive the construction of players (same tables before and after: %s)' % ', '.join(seq), not changed, str(changed)[:600])
-    if bad: ctx.violation(bad)
+    if bad: ctx.violation(bad); return
+    # ... and they survive a LENIENT play in which a packet of every mapped type fails (one-byte payloads): afterwards every type is still handed
+    # to its class, by this player and by a player constructed later
+    for d, label, pl in players[:3] + players[-2:]:
+        stream = b''.join(struct.pack('<IIf', 1, tid, 0.0) + b'\x00' for tid, _c, _m in tabs0[d])
+        try:
+            with common.time_limit(20): pl.play(stream, False)
+        except Exception: pass
+    tabs2, _ = gen_const.reflect_tables()
+    changed2 = [(d, sorted(set(tabs0[d]) ^ set(tabs2[d]))) for d in tabs0 if tabs0[d] != tabs2[d]]
+    ctx.case(('table-stability-after-failures',))
+    if changed2:
+        d, diff = changed2[0]
+        ctx.violation(dict(kind='mapped-packet-not-delivered', dialect=d, table_entries_changed=[list(x) for x in diff][:6],
+                           how='construct the players, play (lenient) a stream with a one-byte packet of every mapped type - each fails in its class -, then read the '
+                               'module-level packet tables again: a later parse in this process would not be handed those packet types any more'))
 
 
 def run(ctx):
